@@ -62,6 +62,7 @@ def step (line : String) : String :=
   | "hstep" :: rest => runHstep (parseKV rest)
   | "layout" :: rest => runLayout (parseKV rest)
   | "mapops" :: rest => runMapops (parseKV rest)
+  | "mapwide" :: rest => runMapwide (parseKV rest)
   | "qr" :: rest => runQR (parseKV rest)
   | "qrf" :: rest => runQRF (parseKV rest)
   | "lu" :: rest => runLU (parseKV rest)
